@@ -6,6 +6,7 @@ import RsModel.Lemmas.StrictOrder
 import RsModel.Lemmas.LinesTree
 import RsModel.Lemmas.ReplaceOrig
 import RsModel.Lemmas.WarmStrict
+import RsModel.Lemmas.ProvWarm
 /-!
 # C11 — produced source maps and chunk streams are well-formed
 -/
@@ -194,6 +195,21 @@ example : (Src.concat (.cons (.cached 0 (.orig [97, 59, 98] [102])) (.cons (.raw
   intro m hm
   simp only [List.mem_cons, List.mem_nil_iff, or_false] at hm
   rcases hm with rfl | rfl <;> exact ⟨by decide, fun o ho => by cases ho; exact ⟨by decide, by decide, by decide, fun k hk => by cases hk⟩⟩
+
+
+/-- **… and for every `get_map` of every call history** (columns = true): in any history of streaming / `get_map` calls — any
+length, options in any order, cold caches at the start — on a tree with CachedSource nodes (none beneath a ReplaceSource) and
+strictly sorted attached maps, the map every `get_map` of the history returns has its decoded segments at strictly increasing
+characters of `source()`, all before the end.  `c10_every_history` ∘ `c11_map_strict` on the cache-free tree and on the replay tree. -/
+theorem c11_every_history_map_strict (s : Src) (hk : s.NoCR) (hn : s.ids.Nodup) (σ : Store) (hc : Cold σ s.ids)
+    (h : s.ModeHypC) (hst : s.StrictMaps) (hs : s.SmallF)
+    (hsmall1 : ∀ m ∈ chunkMs (s.strip.stream ⟨true, true⟩ []).1.evs, m.small)
+    (hsmall2 : ∀ m ∈ chunkMs ((s.warm ⟨true, true⟩).stream ⟨true, true⟩ []).1.evs, m.small)
+    (calls : List Opts) (k : Nat) (hcall : calls[k]? = some ⟨true, true⟩) :
+    ∃ r, (runCalls s calls σ).1[k]? = some r ∧ ∀ sm, mapOfEvs true r.evs = some sm →
+      (decode sm.mappings).Pairwise mlt
+      ∧ ∀ m ∈ decode sm.mappings, ∃ j, j < s.src.length ∧ adv startPos (s.src.take j) = ⟨m.gl, m.gc⟩ :=
+  history_map_strict s hk hn σ hc h hst hs hsmall1 hsmall2 calls k hcall
 
 
 /-! ## the map clause, columns = false -/
